@@ -186,6 +186,18 @@ def fixed_pairs():
               d + 'parser { /k+/; b = [b + 1]; (/k+/ "!"); b = [b + 1]; ";"; }\n'))
     P.append((d + 'macro use(expr e, out o) { o = e; h0(); }\nmacro wrap(out x, out o) { "w"; use([x * 2 + y], o); }\nparser { wrap(a, b); "."; }\n',
               d + 'parser { "w"; b = [a * 2 + y]; h0(); "."; }\n'))
+    # a macro's own parameter shadows what its callers (or the globals) call by that name, whatever its kind
+    P.append((d + 'out int z = 40;\nmacro inner(out v) { y = [v + 1]; }\nmacro outer(expr v) { inner(z); "="; y = [y + v]; }\nparser { outer(7); ";"; }\n',
+              d + 'out int z = 40;\nparser { y = [z + 1]; "="; y = [y + 7]; ";"; }\n'))
+    P.append((d + 'macro m1(finishcode a0, out a1, expr a2) { "zz"; a1 = [a1 + 1]; }\nmacro m2(expr ex, expr a1, out a2) { m1(F0, a2, ex); a2 = 3; }\nfinishcode F0;\nparser { "<"; m2([b & 7], [2 * 3], b); ">"; }\n',
+              d + 'finishcode F0;\nparser { "<"; "zz"; b = [b + 1]; b = 3; ">"; }\n'))
+    # names inside a math argument mean what they mean at the call
+    P.append((d + 'macro inner(expr p, expr q) { x = [p]; }\nmacro outer(expr q) { inner([q + 1], 5); }\nparser { "a"; outer(10); "b"; }\n',
+              d + 'parser { "a"; x = [10 + 1]; "b"; }\n'))
+    P.append((d + 'macro store(out v, expr e) { v = e; }\nmacro outer(out x) { "x"; store(b, [x + v]); "y"; }\nparser { outer(a); }\n',
+              d + 'parser { "x"; b = [a + v]; "y"; }\n'))
+    P.append((d + 'macro foo() { x = 7; }\nmacro m(hook foo) { foo(); }\nparser { "a"; m(h0); "b"; }\n',
+              d + 'parser { "a"; h0(); "b"; }\n'))
     return P
 
 
